@@ -187,7 +187,10 @@ class DULServiceProvider(threading.Thread):
     def run(self):
         try:
             while not self.is_killed:
-                self._check_network() or self._check_outgoing_pdu() or self._check_timer()  # pylint: disable=expression-not-assigned
+                if not self.event:
+                    # Poll for a new event only when no event is pending: there is a single
+                    # current-PDU slot, so an event must be handled before the next PDU is taken.
+                    self._check_network() or self._check_outgoing_pdu() or self._check_timer()  # pylint: disable=expression-not-assigned
                 try:
                     evt = self.event.popleft()
                 except IndexError:
